@@ -171,6 +171,11 @@ func (f Nth) Walk(rest, path Expr, nodes []any, cb func(path Expr, nodes []any))
 			return
 		}
 	}
+	if 0 <= index {
+		// The reported path is normalized, a negative index is replaced by
+		// the index from the start.
+		path[len(path)-1] = Nth(index)
+	}
 	if 0 < len(rest) {
 		rest[0].Walk(rest[1:], path, append(nodes, value), cb)
 	} else {
